@@ -77,6 +77,8 @@ type m10 struct {
 	cls      map[string]bool
 	avoidF6  bool
 	moduleEt common.Address
+	feeSrv   map[string]v1.MsgServer // fee-swap msg servers over persistent registries, per (pair, ratio)
+	feeSeen  []op10                  // fee swaps drawn so far (generator: repeat a pair and ratio)
 }
 
 func c10Holder(e *chain.Env, i int) common.Address {
@@ -227,7 +229,12 @@ func (m *m10) Next(t *rapid.T) op10 {
 		}
 		op.To = rapid.SampledFrom([]int{-1, -1, -1, 0, 1, 2, 3, 5, 6, 7}).Draw(t, "to")
 		op.Ratio = drawRatio(t, m.avoidF6).String()
+		if len(m.feeSeen) > 0 && rapid.IntRange(0, 1).Draw(t, "repeatpair") == 0 {
+			prev := m.feeSeen[rapid.IntRange(0, len(m.feeSeen)-1).Draw(t, "prevfee")]
+			op.Tok, op.Tok2, op.Ratio = prev.Tok, prev.Tok2, prev.Ratio
+		}
 		op.Amount = m.drawAmount(t, m.c.Balance(e.Users[op.Who].Addr, m.toks[op.Tok].minUnit).BigInt()).String()
+		m.feeSeen = append(m.feeSeen, op)
 		return op
 	default:
 		op := op10{Kind: "enable", Who: -1, Enable: rapid.IntRange(0, 2).Draw(t, "on") != 0}
@@ -605,8 +612,21 @@ func (m *m10) feeSwap(op op10, tk *tok10, before chain.Sheet, evmBefore string) 
 	sender := e.Users[op.Who].Addr
 	recv, recvStr := m.recvAddr(op.To, op.Who)
 	msg := &v1.MsgSwapFeeToken{FeePaid: sdk.Coin{Denom: tk.minUnit, Amount: gen.ToInt(offered)}, Receiver: recvStr, Sender: sender.String()}
-	k := e.K.Token.WithSwapRegistry(v1.SwapRegistry{tk.minUnit: v1.SwapParams{MinUnit: out.minUnit, Ratio: sdkmath.LegacyNewDecFromBigIntWithPrec(ratio, 18)}})
-	srv := tokenkeeper.NewMsgServerImpl(k)
+	// The swap registry is application configuration that lives as long as the process: a (pair, ratio) entry is
+	// built once per case and reused by every later swap of that pair, so state left behind in the registry by
+	// an earlier call (successful or rejected) is seen by the next one.
+	key := fmt.Sprintf("%d>%d@%s", op.Tok, op.Tok2, op.Ratio)
+	srv, reused := m.feeSrv[key]
+	if !reused {
+		k := e.K.Token.WithSwapRegistry(v1.SwapRegistry{tk.minUnit: v1.SwapParams{MinUnit: out.minUnit, Ratio: sdkmath.LegacyNewDecFromBigIntWithPrec(ratio, 18)}})
+		srv = tokenkeeper.NewMsgServerImpl(k)
+		if m.feeSrv == nil {
+			m.feeSrv = map[string]v1.MsgServer{}
+		}
+		m.feeSrv[key] = srv
+	} else {
+		m.cls["feeswap-registry-entry-reused"] = true
+	}
 	var resp *v1.MsgSwapFeeTokenResponse
 	res := m.run(func(ctx sdk.Context) error {
 		if err := msg.ValidateBasic(); err != nil {
